@@ -397,11 +397,26 @@ class Inliner:
         elif isinstance(s, (ast.For, ast.AsyncFor)):
             hit = self._call_of(s.iter)
             mode = "for"
+        elif isinstance(s, ast.If) and not s.orelse:
+            # if [not] self._helper(..): BODY   with a helper that answers with boolean constants only: each ``return True / False`` of
+            # the helper becomes BODY or nothing
+            t_ = s.test
+            neg_if = isinstance(t_, ast.UnaryOp) and isinstance(t_.op, ast.Not)
+            if neg_if:
+                t_ = t_.operand
+            hit = self._call_of(t_)
+            mode = "iftest"
+            if hit is not None:
+                fn_ = self.helpers[hit[1]][1]
+                nested_ = [y for x in ast.walk(fn_) if isinstance(x, (ast.FunctionDef, ast.AsyncFunctionDef, ast.Lambda)) and x is not fn_ for y in ast.walk(x) if isinstance(y, ast.Return)]
+                rets_ = [r for r in ast.walk(fn_) if isinstance(r, ast.Return) and r not in nested_]
+                if not rets_ or not all(isinstance(r.value, ast.Constant) and isinstance(r.value.value, bool) for r in rets_):
+                    hit = None
         if hit is None:
             return None
         call, name, is_meth = hit
         qn, fn, chain = self.helpers[name]
-        src_expr = s.iter if mode == "for" else s.value
+        src_expr = s.iter if mode == "for" else ((s.test.operand if isinstance(s.test, ast.UnaryOp) else s.test) if mode == "iftest" else s.value)
         if isinstance(fn, ast.AsyncFunctionDef) != isinstance(src_expr, ast.Await) and mode != "for":
             return None          # a coroutine that is not awaited here (or a plain function that is): not the same as running its body
         body0 = _body(fn)
@@ -460,6 +475,12 @@ class Inliner:
             res = list(body)
             if not (res and isinstance(res[-1], (ast.Return, ast.Raise))):
                 res.append(ast.Return(value=ast.Constant(value=None)))
+        elif mode == "iftest":
+            def emit(v):
+                val = bool(v.value) if isinstance(v, ast.Constant) else False       # falling off the end returns None
+                taken = (not val) if neg_if else val
+                return [copy.deepcopy(x) for x in s.body] if taken else []
+            res = _tailify(body, emit)
         elif mode == "assign" and flag_if is not None:
             neg_ = isinstance(flag_if.test, ast.UnaryOp)
 
@@ -1066,7 +1087,57 @@ def normalise_conditions(trees: Dict[str, ast.Module]) -> Dict[str, str]:
                 else:
                     holder[key] = t2
                 n_nnf += 1
+    # a sort key (or any small function) that was given a name:  by_depth = lambda s: (s.depth, s.id) ... sorted(x, key=by_depth)
+    n_lam = 0
+    known_ = load_known() or set()
+    for mod_, tree in trees.items():
+        ref_defs = {id(node) for qn, node, chain in qualnames(tree, mod_) if qn in known_}
+        for fn in [x for x in ast.walk(tree) if isinstance(x, (ast.FunctionDef, ast.AsyncFunctionDef))]:
+            for owner in ast.walk(fn):
+                for fld in ("body", "orelse", "finalbody"):
+                    blk = getattr(owner, fld, None)
+                    if not (isinstance(blk, list) and blk and isinstance(blk[0], ast.stmt)):
+                        continue
+                    for a in list(blk):
+                        if isinstance(a, ast.FunctionDef) and a is not fn and id(a) not in ref_defs and not a.decorator_list and not a.args.vararg and not a.args.kwarg and not a.args.defaults \
+                                and not a.args.kw_defaults and len(_body(a)) == 1 and isinstance(_body(a)[0], ast.Return) and _body(a)[0].value is not None:
+                            # def by_depth(s): return (s.depth, s.id)   - a lambda with a name
+                            nm = a.name
+                            if any(isinstance(y, ast.Name) and y.id == nm and not isinstance(y.ctx, ast.Load) for y in ast.walk(fn)):
+                                continue
+                            lam = ast.Lambda(args=ast.arguments(posonlyargs=[], args=[ast.arg(arg=z.arg) for z in a.args.posonlyargs + a.args.args], kwonlyargs=[],
+                                                                kw_defaults=[], defaults=[]), body=_body(a)[0].value)
+                            ast.copy_location(lam, a)
+                            ast.fix_missing_locations(lam)
+                        elif isinstance(a, ast.Assign) and len(a.targets) == 1 and isinstance(a.targets[0], ast.Name) and isinstance(a.value, ast.Lambda):
+                            nm = a.targets[0].id
+                            occ = [y for y in ast.walk(fn) if isinstance(y, ast.Name) and y.id == nm]
+                            if sum(1 for y in occ if not isinstance(y.ctx, ast.Load)) != 1:
+                                continue
+                            lam = a.value
+                        else:
+                            continue
+                        lp = {z.arg for z in lam.args.posonlyargs + lam.args.args + lam.args.kwonlyargs}
+                        free = {y.id for y in ast.walk(lam.body) if isinstance(y, ast.Name)} - lp
+                        if free - {"self", "len", "str", "int", "tuple"}:
+                            continue          # closes over something that may change between definition and use
+
+                        class L(ast.NodeTransformer):
+                            def visit_Name(self, x):
+                                return copy.deepcopy(lam) if x.id == nm and isinstance(x.ctx, ast.Load) else x
+                        for st in ast.walk(fn):
+                            pass
+                        for fld2 in ("body",):
+                            fn.body = [L().visit(st) if st is not a else st for st in fn.body]
+                        blk2 = getattr(owner, fld)
+                        if a in blk2:
+                            blk2.remove(a)
+                            if not blk2:
+                                blk2.append(ast.Pass())
+                        n_lam += 1
     out = {}
+    if n_lam:
+        out["<lambdas>"] = f"{n_lam} named lambda(s) read where they are used"
     if n_fold:
         out["<conditions>"] = f"{n_fold} named condition(s) that were tested in the very next statement read in place"
     if n_nnf:
